@@ -182,3 +182,30 @@ class Samples:
             j = self.rng.randrange(self.n)
             if j < self.k:
                 self.items[j] = item
+
+
+def with_big_stack(main, mb=512):
+    """Run `main` in a thread with a large stack (deep Python recursion of the reference
+    interpreter), propagating its exit status."""
+    import threading
+    sys.setrecursionlimit(100000)
+    threading.stack_size(mb * 1024 * 1024)
+    box = {"code": 0}
+
+    def body():
+        try:
+            main()
+        except SystemExit as e:
+            c = e.code
+            box["code"] = c if isinstance(c, int) else (0 if c is None else 1)
+            if c is not None and not isinstance(c, int):
+                sys.stderr.write(str(c) + "\n")
+        except BaseException:
+            import traceback
+            traceback.print_exc()
+            box["code"] = 2
+    t = threading.Thread(target=body)
+    t.start()
+    t.join()
+    sys.stdout.flush()
+    sys.exit(box["code"])
